@@ -188,7 +188,10 @@ class VCSAPI:
         """Get status lines."""
         status_output = self('status')
         status_items: typ.List[typ.Tuple[str, str]] = []
-        for line in status_output.splitlines():
+        for line in status_output.split("\n"):
+            if not line.strip():
+                continue
+
             # NOTE: git porcelain lines are "XY <path>" (X or Y may be a space),
             #   hg lines are "X <path>". Renames are "XY <orig> -> <path>".
             status, filepaths = line[:2].strip(), line[2:]
@@ -212,13 +215,14 @@ class VCSAPI:
 
     def ls_tags(self) -> typ.List[str]:
         """List vcs tags on all branches."""
-        ls_tag_lines = self('ls_tags').splitlines()
+        # NOTE: str.splitlines would also split at characters that may be part of a name
+        ls_tag_lines = self('ls_tags').split("\n")
         logger.debug(f"ls_tags output {ls_tag_lines}")
         return [line.strip().split(" ", 1)[0] for line in ls_tag_lines]
 
     def ls_tags_branch(self) -> typ.List[str]:
         """List vcs tags on all branches."""
-        ls_tag_lines = self('ls_tags_branch').splitlines()
+        ls_tag_lines = self('ls_tags_branch').split("\n")
         logger.debug(f"ls_tags_branch output {ls_tag_lines}")
         return [line.strip().split(" ", 1)[0] for line in ls_tag_lines]
 
